@@ -698,6 +698,50 @@ func (se *SpecEnv) call(x *ast.CallExpr) (Val, error) {
 		}
 		comp := map[string]string{"consumed": ghConsumed, "count": ghCount, "teesrc": ghTeeSrc, "teedst": ghTeeDst}[name]
 		return Val{T: sel(fc.compAt(se.st, comp, arraySort("Int")), p.T), S: SInt, Typ: tInt}, nil
+	case "flag":
+		// flag(v): the bool stored in an atomic.Value (struct value or pointer to it)
+		v, err := se.expr(x.Args[0])
+		if err != nil {
+			return Val{}, err
+		}
+		fc.vc.declareFun("unwrap.bool", []string{"Int"}, "Bool")
+		if v.S == SInt {
+			c := fc.compAt(se.st, "F.sync.atomic.Value.val", arraySort("Int"))
+			return Val{T: "(unwrap.bool " + sel(c, v.T) + ")", S: SBool, Typ: tBool}, nil
+		}
+		return Val{T: "(unwrap.bool (" + string(v.S) + ".val " + v.T + "))", S: SBool, Typ: tBool}, nil
+	case "ghostv":
+		// ghostv("name", ref): a named ghost counter/cell per object
+		bl, ok := x.Args[0].(*ast.BasicLit)
+		if !ok || len(x.Args) != 2 {
+			return Val{}, fmt.Errorf("ghostv(\"name\", ref)")
+		}
+		r, err := se.expr(x.Args[1])
+		if err != nil {
+			return Val{}, err
+		}
+		c := fc.compAt(se.st, "GH."+strings.Trim(bl.Value, "\""), arraySort("Int"))
+		return Val{T: sel(c, r.T), S: SInt, Typ: tInt}, nil
+	case "closureIs":
+		// closureIs(v, F): v is the method value / closure of function F
+		if err := argc(2); err != nil {
+			return Val{}, err
+		}
+		v, err := se.expr(x.Args[0])
+		if err != nil {
+			return Val{}, err
+		}
+		name := exprString(x.Args[1])
+		fn, err := fc.prog.resolveFuncName(se.pkgPath, name+"$bound")
+		if err != nil {
+			fn, err = fc.prog.resolveFuncName(se.pkgPath, name)
+			if err != nil {
+				return Val{}, err
+			}
+		}
+		fv, _ := fc.val(fn)
+		fc.vc.declareFun("closureFn", []string{"Int"}, "Int")
+		return Val{T: mkAnd(mkNot(mkEq(v.T, "0")), mkEq("(closureFn "+v.T+")", fv.T)), S: SBool, Typ: tBool}, nil
 	case "chanlog":
 		if err := argc(2); err != nil {
 			return Val{}, err
